@@ -387,7 +387,8 @@ def search_set(run):
 
 PROPS['C06'] = {
     'modules': ['IpcModel.Props.C06'],
-    'theorems': ['C06.C06_no_lost_wakeup', 'C06.C06_init', 'C06.C06_select_enabled', 'C06.C06_cap_pos', 'RSetP.inv_step'],
+    'theorems': ['C06.C06_no_lost_wakeup', 'C06.C06_init', 'C06.C06_select_enabled', 'C06.C06_once_ordered', 'C06.C06_inv2_init', 'C06.C06_inv2_fresh',
+                 'C06.C06_inv2_step', 'C06.C06_cap_pos', 'RSetP.inv_step', 'RSetP.acct_step', 'RSetP.acct_run'],
     'scenarios': (lambda a: (lambda tier, seed: a(tier, seed) + [{'args': ['crash', '--shape', str(i), '--tier', tier, '--observer', 'select']}
                                                        for i in ((1, 2, 4, 5) if tier == 'thorough' else (1, 2))]))(set_scen(800, 12000)),
     'search': search_set,
@@ -399,10 +400,11 @@ PROPS['C06'] = {
     'explanation': ('no-lost-wake-up invariant proved for all interleavings and all cap values; select enabled whenever something is pending; the real set compared with '
                     'the model per member (exactly once, order, closed last) on seeded scripts incl. >10 ready members, traffic queued before add, EINTR'),
     'assumptions': ['epoll edge-triggered ready list modelled as: append on arrival/closure/registration-while-ready unless present; at most cap tokens per wait',
-                    'per-member exactly-once/closed-last is checked by the harness and the model run, not yet proved as a theorem'],
-    'level_text': ('Kernel-checked for every execution: no lost wake-up (a pending registered member is always in the ready list or in the batch being drained), hence '
-                   'select is enabled whenever a message or closure is pending, for any number of ready members; per-member exactly-once / closed-last is established '
-                   'by model-vs-real comparison on seeded scripts only (partial)'),
+                    'member ids are pairwise distinct (counter in the real set; checked by the harness)'],
+    'level_text': ('Kernel-checked for every execution (any members, traffic, interleaving of sender threads and the selecting thread, any events-buffer size): no lost wake-up '
+                   '(a pending registered member is always in the ready list or in the batch being drained), hence select is enabled whenever a message or closure is pending; '
+                   'and per member the reported events are exactly its messages, once each, in send order, followed by one closure only after all of them and only when no '
+                   'sender exists (C06_once_ordered); the real set is compared with the model per member on seeded scripts and with crashed sender processes'),
     'level_note': 'Trusted: Lean kernel, harness; epoll ready-list semantics modelled; select loop hand-modelled and tied by per-member event sequences',
 }
 
